@@ -233,4 +233,8 @@ SUBS = [
     Sub(name='enum-face-specials', kind='enum', run=run_wrap, size=special_size, case_at=special_case, exhaustive=True,
         rule='complete enumeration: every ordered pair of the face-special coordinates (0, 1, -1e-17, 1e-17, 1-1e-16, 1-2^-53, +-2^-60, 0.5, k/n, each also shifted by -2, -1, 1, 3 cells) as consecutive frames of one atom in a triclinic cell',
         shards={'quick': 16, 'thorough': 16}),
+    Sub(name='api-histories', kind='machine', run=lambda case: __import__('pbt.props.c15', fromlist=['run_log']).run_log(case),
+        machine=lambda tier: __import__('pbt.props.c15', fromlist=['TrajMachine']).TrajMachine,
+        rule='call histories (the state machine shared with C15) run for this property: a pool of live trajectories under read-only queries, filter, slices, split and in-place extend; after every step the positions lie in [0,1) and equal the reference model modulo 1 and displacements / cumulative displacements / distances equal the model, so values that go stale after extend or are altered by another call are found',
+        n={'quick': 15, 'thorough': 300}, shards={'quick': 8, 'thorough': 16}, steps={'quick': 30, 'thorough': 50}),
 ]
